@@ -154,11 +154,6 @@ Definition mermaid_edges (t : tree) : list (str * str) :=
    are stored in the tree's attribute list: key 'n' ++ k (value VStr v) for the node style entry
    k -> v, key 'e' ++ k for the edge style entry.  rankdir / bg_colour only touch the graph object. *)
 
-Definition sdict := list (str * str).
-
-Fixpoint slookup (k : str) (d : sdict) : option str :=
-  match d with [] => None | (k', v) :: r => if str_eqb k k' then Some v else slookup k r end.
-
 (* dict.update for one item: overwrite in place, else append *)
 Fixpoint sset (d : sdict) (k v : str) : sdict :=
   match d with
@@ -167,27 +162,7 @@ Fixpoint sset (d : sdict) (k v : str) : sdict :=
   end.
 Definition supdate (d u : sdict) : sdict := fold_left (fun acc kv => sset acc (fst kv) (snd kv)) u d.
 
-Definition sty_of (tagc : N) (t : tree) : sdict :=
-  flat_map (fun kv => match kv with
-                      | (c :: k, VStr v) => if N.eqb c tagc then [(k, v)] else []
-                      | _ => []
-                      end) (tattrs t).
-Definition node_sty := sty_of 110%N.     (* 'n' *)
-Definition edge_sty := sty_of 101%N.     (* 'e' *)
-
-Record dotopts := DO { do_node_colour : option str; do_node_shape : option str; do_edge_colour : option str;
-                       do_node_attr : bool; do_edge_attr : bool }.
-
-Definition s_style : str := [115; 116; 121; 108; 101]%N.
-Definition s_filled : str := [102; 105; 108; 108; 101; 100]%N.
-Definition s_fillcolor : str := [102; 105; 108; 108; 99; 111; 108; 111; 114]%N.
-Definition s_shape : str := [115; 104; 97; 112; 101]%N.
-Definition s_color : str := [99; 111; 108; 111; 114]%N.
-Definition s_label : str := [108; 97; 98; 101; 108]%N.
-
-(* lines 1277-1280; an empty string counts as "not given" *)
-Definition given (o : option str) : option str :=
-  match o with Some [] => None | _ => o end.
+(* lines 1277-1280 *)
 Definition node_style0 (o : dotopts) : sdict :=
   supdate (match given (do_node_colour o) with Some c => [(s_style, s_filled); (s_fillcolor, c)] | None => [] end)
           (match given (do_node_shape o) with Some s => [(s_shape, s)] | None => [] end).
